@@ -79,12 +79,16 @@ func (mgr *TopicManager) unsubscribe(topics []string, clientID string) error {
 	mgr.Lock()
 	defer mgr.Unlock()
 
+	// remove every well-formed filter and report the first malformed one: the caller
+	// forgets all filters of the packet in the session, so a filter that stayed in the
+	// trie because it came after a malformed one would never be removed again.
+	var firstErr error
 	for _, t := range topics {
-		if err := mgr.remove(t, clientID); err != nil {
-			return err
+		if err := mgr.remove(t, clientID); err != nil && firstErr == nil {
+			firstErr = err
 		}
 	}
-	return nil
+	return firstErr
 }
 
 // findSubscribers is used to find all clients that subscribe a certain topic directly or use wildcard.
